@@ -236,8 +236,9 @@ func (its *jsonPrimitive) getTargetByPaths(paths []string) (jsonType, errors.Ord
 func (its *jsonPrimitive) getTargetFromPatch(path string) (jsonType, string, errors.OrdaError) {
 	paths := strings.Split(path, "/")
 
-	if len(paths) < 1 {
-		return nil, "", errors.DatatypeInvalidPatch.New(its.common.L(), "incorrect path: %v", path)
+	if len(paths) < 2 {
+		// "" addresses the whole document (e.g. the diff towards a JSON value that is not an object)
+		return nil, "", errors.DatatypeInvalidPatch.New(its.common.L(), "incorrect path: "+path)
 	}
 	// a JSON pointer escapes '~' as "~0" and '/' as "~1" in every reference token (RFC 6901)
 	for i := range paths {
